@@ -1,6 +1,7 @@
 package checks
 
 import (
+	"os"
 	"fmt"
 	"go/ast"
 	"go/types"
@@ -53,12 +54,18 @@ func distSpec(name string, a []*sym.Term, extra []vn.Value) (*sym.Term, bool) {
 	}
 	switch name {
 	case "mlgamma", "gammap", "logbesseli", "besseli":
-		var args []*sym.Term
-		args = append(args, a...)
+		var args, params []*sym.Term
 		for _, e := range extra {
 			if t, ok := e.(*sym.Term); ok {
-				args = append(args, t)
+				params = append(params, t)
 			}
+		}
+		if name == "mlgamma" {
+			// mlgamma(x, k)
+			args = append(append(args, a...), params...)
+		} else {
+			// gammap(shape, x), besseli(order, x): the parameter comes first, as in the special-function package
+			args = append(append(args, params...), a...)
 		}
 		return sym.Fn(name, args...), true
 	case "digamma", "trigamma":
@@ -165,12 +172,20 @@ type methodPath struct {
 var c14IntSyms map[string]bool
 var c14Paths int
 
+// c14ParamList: positional pre-bound parameters for the next runMethod call (a vector argument bound to a one-element
+// local vector holding the symbol x)
+var c14ParamList []vn.Value
+
 func runMethod(p *packages.Package, d *declIndex, fd *ast.FuncDecl, obj *vn.StructVal) ([]methodPath, *vn.Undecided) {
 	var res []methodPath
 	// every path needs a fresh copy of the object: run path by path through vn.Run with a copying hook is not
 	// available, so the object is copied once per Run and Run re-binds it on every path enumeration through RecvStruct.
 	cfg := vn.Config{Pkg: p, TypeName: "Real64", Spec: distSpec, InlineOps: inlineOps, Decl: d.find, ParamNames: true, MaxDepth: 6,
 		RecvStruct: obj, RecvFresh: true, IntSyms: c14IntSyms, ParamSyms: c14MethodSyms[fd.Name.Name]}
+	if c14ParamList != nil {
+		cfg.ParamList = c14ParamList
+		cfg.ParamFresh = true
+	}
 	paths, u := vn.Run(cfg, fd)
 	if u != nil {
 		return nil, u
@@ -1112,8 +1127,19 @@ func checkDistEntry(c *core.Ctx, p *packages.Package, d *declIndex, e distEntry)
 			if cdf.Type.Params.NumFields() != 2 {
 				continue
 			}
+			// a vector-typed argument (x.At(0)) is bound to a one-element vector holding the symbol x
+			c14ParamList = nil
+			if plist := cdf.Type.Params.List; len(plist) == 2 && len(plist[1].Names) == 1 {
+				if containerRankOfType(p.TypesInfo.Defs[plist[1].Names[0]].Type()) == 1 {
+					c14ParamList = []vn.Value{nil, vn.NewLocalVec(sym.Sym("x"))}
+				}
+			}
 			pps, und := runMethod(p, d, cdf, ok.obj)
+			c14ParamList = nil
 			if und != nil {
+				if os.Getenv("C14_DEBUG") != "" {
+					fmt.Println("DEBUG", e.T, cdfName, "undecided:", und.Msg, c.PosStr(und.Pos))
+				}
 				continue // special-function idioms outside the interpreter: not decided
 			}
 			for _, mp := range pps {
@@ -1124,26 +1150,37 @@ func checkDistEntry(c *core.Ctx, p *packages.Package, d *declIndex, e distEntry)
 					continue
 				}
 				F := mp.result
-				if rs := F.String(); rs == "-Inf" || rs == "0" || rs == "1" {
-					continue
+				if rs := F.String(); rs == "-Inf" || rs == "0" || rs == "1" || !F.DependsOn(sym.SymAtom("x")) {
+					continue // a constant: the value outside the support (0, 1, log 0)
 				}
 				if cdfName == "LogCdf" {
 					F = sym.Fn("exp", F)
 				}
 				xa := sym.SymAtom("x")
+				F = resolveAbs(F, mp.condvs)
 				dF, err := sym.Diff(F, xa)
 				if err != nil {
+					if os.Getenv("C14_DEBUG") != "" {
+						fmt.Println("DEBUG", e.T, cdfName, "no derivative:", err, clip(F.String(), 200))
+					}
 					continue // derivative rule missing for a special function: not decided
 				}
 				atoms := condAtoms(mp.condvs)
 				if atoms["eq(0, xi)"] {
 					continue
 				}
+				// the distribution function takes a non-constant value only inside the support
+				for _, sp := range v.support {
+					c.Check(atoms[sp], "C14.R2", cons, cdfName+" value path carries "+sp+" ["+shortConds(mp.conds)+"]"+vtag, cdf.Pos(),
+						cdfName+" computes its formula on the path ["+mp.conds+"], which does not require "+sp+": outside the support the distribution function is 0 or 1, and the formula gives NaN or a wrong value there")
+				}
 				sub := eqSubst(mp.condvs)
 				exp := sym.Fn("exp", want)
 				if len(sub) > 0 {
 					dF, exp = sym.Subst(dF, sub), sym.Subst(exp, sub)
 				}
+				dF = expandGammaPd1(dF)
+				exp = resolveAbs(exp, mp.condvs)
 				c.Check(sym.Equal(dF, exp) || sym.Equal(sym.LogExpand(dF), sym.LogExpand(exp)), "C14.R6", cons, "d/dx "+cdfName+" = density on ["+shortConds(mp.conds)+"]"+vtag, cdf.Pos(),
 					"the derivative of the distribution function computed by "+cdfName+" is "+dF.String()+" but the density is "+exp.String()+": the cumulative and the density describe different distributions")
 			}
@@ -1309,4 +1346,96 @@ func boolField(v vn.Value, sub map[*sym.Atom]*sym.Term, ctor map[string]bool) (b
 		return condTruth14(b.C, sub, ctor)
 	}
 	return false, false
+}
+
+func containerRankOfType(t types.Type) int {
+	n, _ := t.(*types.Named)
+	if n == nil {
+		if p, ok := t.(*types.Pointer); ok {
+			n, _ = p.Elem().(*types.Named)
+		}
+	}
+	if n == nil {
+		return 0
+	}
+	switch {
+	case strings.HasSuffix(n.Obj().Name(), "Vector"):
+		return 1
+	case strings.HasSuffix(n.Obj().Name(), "Matrix"):
+		return 2
+	}
+	return 0
+}
+
+// expandGammaPd1 replaces d/dz P(a, z) = z^(a-1) e^(-z) / Gamma(a) by its closed form.
+func expandGammaPd1(t *sym.Term) *sym.Term {
+	sub := map[*sym.Atom]*sym.Term{}
+	for _, at := range t.Atoms() {
+		if at.Kind == "gammapd1" && len(at.Args) == 2 {
+			a, z := at.Args[0], at.Args[1]
+			sub[at] = sym.Fn("exp", sym.Sub(sym.Sub(sym.Mul(sym.Sub(a, sym.One()), sym.Fn("log", z)), z), sym.Fn("lgamma", a)))
+		}
+	}
+	if len(sub) == 0 {
+		return t
+	}
+	return sym.Subst(t, sub)
+}
+
+// resolveAbs replaces |u| by u or -u where the guards of the path fix the sign of u = A - B (a guard A > B, A < B, ...).
+func resolveAbs(t *sym.Term, conds []vn.CondV) *sym.Term {
+	sub := map[*sym.Atom]*sym.Term{}
+	var visit func(t *sym.Term)
+	seen := map[*sym.Atom]bool{}
+	visit = func(t *sym.Term) {
+		for _, at := range t.Atoms() {
+			if seen[at] {
+				continue
+			}
+			seen[at] = true
+			for _, ar := range at.Args {
+				visit(ar)
+			}
+			if (at.Kind == "abs" || at.Kind == "fabs") && len(at.Args) == 1 {
+				u := at.Args[0]
+				for _, cv := range conds {
+					if cv.C.A == nil || cv.C.B == nil {
+						continue
+					}
+					d := sym.Sub(cv.C.A, cv.C.B)
+					sign := 0
+					switch cv.C.Op {
+					case "gt", "ge":
+						sign = 1
+					case "lt", "le":
+						sign = -1
+					default:
+						continue
+					}
+					if !cv.V {
+						sign = -sign
+					}
+					// the guard says sign * (A - B) >= 0
+					if sym.Equal(d, u) {
+						if sign > 0 {
+							sub[at] = u
+						} else {
+							sub[at] = sym.Neg(u)
+						}
+					} else if sym.Equal(d, sym.Neg(u)) {
+						if sign > 0 {
+							sub[at] = sym.Neg(u)
+						} else {
+							sub[at] = u
+						}
+					}
+				}
+			}
+		}
+	}
+	visit(t)
+	if len(sub) == 0 {
+		return t
+	}
+	return sym.Subst(t, sub)
 }
